@@ -243,10 +243,10 @@ func runC17(c *Ctx) {
 			add("caps", []byte([]string{"", "6", "46", "4", "B6", "BC"}[r.Intn(6)]))
 		}
 		if r.Intn(3) == 0 {
-			add("s", r.Bytes([]int{0, 31, 32, 33, 44}[r.Intn(5)]))
+			add("s", fixedValue(r, []int{0, 31, 32, 33, 44}[r.Intn(5)]))
 		}
 		if r.Intn(3) == 0 {
-			add("i", r.Bytes([]int{0, 15, 16, 17, 24}[r.Intn(5)]))
+			add("i", fixedValue(r, []int{0, 15, 16, 17, 24}[r.Intn(5)]))
 		}
 		for k := 0; k < r.Intn(3); k++ {
 			add(decoys[r.Intn(len(decoys))], r.Bytes(r.Intn(6)))
@@ -261,4 +261,30 @@ func runC17(c *Ctx) {
 			c17One(c, kvs, r.Intn(3) == 0)
 		}
 	}
+}
+
+// fixedValue: n bytes that are random, all zero, all 0xFF, one repeated byte or ASCII: the accessors
+// of fixed-size fields look at the length only
+func fixedValue(r *Rng, n int) []byte {
+	b := r.Bytes(n)
+	switch r.Intn(6) {
+	case 0:
+		for i := range b {
+			b[i] = 0
+		}
+	case 1:
+		for i := range b {
+			b[i] = 0xff
+		}
+	case 2:
+		x := byte(r.U64())
+		for i := range b {
+			b[i] = x
+		}
+	case 3:
+		for i := range b {
+			b[i] = 'A' + byte(r.Intn(26))
+		}
+	}
+	return b
 }
